@@ -27,3 +27,9 @@ Print Assumptions tbuf_methods_atomic.
 Theorem tval_granularity : tval_granularity_ok table = true.
 Proof. vm_compute. reflexivity. Qed.
 Print Assumptions tval_granularity.
+
+(* the classes consist of exactly the members the models cover: no data member, method,
+   signature or default argument beyond (or different from) Model.expected_members *)
+Theorem interface_closed : members = expected_members.
+Proof. apply members_eqb_sound. vm_compute. reflexivity. Qed.
+Print Assumptions interface_closed.
